@@ -11,6 +11,20 @@ E3 = "exhaustive / preemption-bounded prange schedule enumeration on source-deri
 
 # id -> (built, category, technique, text, note, design_ref)
 CHECKS = {
+    "C06": (
+        True,
+        "model_checking",
+        E2 + " with row-provenance tags (M4)",
+        "Breadth-first exploration of every history (to a depth bound) of insert/replace/update/delete/pop, 13 kinds of index "
+        "objects (ints, negative and out-of-range ints, stepped slices, boolean masks as ndarray/Array, integer arrays with "
+        "repeats as ndarray/Array/int32 Array, permutations) and sortby(member | permutation) on a live Datagroup mixing "
+        "float and int Arrays and 2-/3-component Vectors. Each member row carries a tag; the reference model applies the "
+        "index to every component array independently, so agreement means one row selection was applied to all members. "
+        "The invariant 'all members have the group shape' is evaluated in every reached state.",
+        "Bounded alphabets (3 keys, 7 value kinds, 4-6 rows) and depth; canonical-form soundness is cross-checked by an "
+        "undeduplicated pass.",
+        "DESIGN.md §3 C06",
+    ),
     "C20": (
         True,
         "model_checking",
